@@ -14,6 +14,7 @@ type Prop struct {
 	Rule        string // how cases are enumerated, what counts as non-trivial
 	Technique   string
 	Inst        bool // needs the instrumented binary (mc-inst)
+	MaxProcs    int  // GOMAXPROCS for workers (0 = 2)
 	Shards      func(tier string) int
 	Bounds      func(tier string) map[string]any
 	Run         func(w *core.W)
